@@ -415,3 +415,35 @@ package participle
 //@   loop 1 invariant *lex == old(*lex)
 //@   loop 1 decreases len(options) - rangeindex
 //@   before call (*participle.Parser[G]).parseOne#1: assert ctx.PeekingLexer == old(*lex) && ctx.lookahead == p.useLookahead && ctx.caseInsensitive == p.caseInsensitiveTokens && ctx.apply == nil [C15 C13]
+
+// Entry points (C15): each one lexes the same (filename, text) with the parser's own definition, upgrades the
+// lexer with the parser's elision list and hands it, with the caller's options, to ParseFromLexer.
+//@ func (*Parser[G]).parse [C15 C06]
+//@   requires lex != nil
+//@   requires @assumed p.lex != nil && forall(k, 0, len(options), options[k] != nil)
+//@   ensures errOK(err) || uf("lexer_error", "Bool", err) [C06]
+//@   before call lexer.Upgrade#1: assert arg0 == lex [C15]
+//@   before call (*participle.Parser[G]).ParseFromLexer#1: assert arg1 == peeker && arg2 == options [C15]
+
+//@ func (*Parser[G]).ParseString [C15 C06]
+//@   requires @assumed p.lex != nil && forall(k, 0, len(options), options[k] != nil)
+//@   before call StringDefinition.LexString#1: assert arg1 == filename && arg2 == s [C15]
+//@   before call Definition.Lex#1: assert arg1 == filename [C15]
+//@   before call (*participle.Parser[G]).parse#1: assert arg1 == lex && arg2 == options [C15]
+
+//@ func (*Parser[G]).ParseBytes [C15 C06]
+//@   requires @assumed p.lex != nil && forall(k, 0, len(options), options[k] != nil)
+//@   before call BytesDefinition.LexBytes#1: assert arg1 == filename && arg2 == b [C15]
+//@   before call Definition.Lex#1: assert arg1 == filename [C15]
+//@   before call (*participle.Parser[G]).parse#1: assert arg1 == lex && arg2 == options [C15]
+
+//@ func (*Parser[G]).Parse [C15 C06]
+//@   requires @assumed p.lex != nil && forall(k, 0, len(options), options[k] != nil)
+//@   before call Definition.Lex#1: assert (old(filename) != "" ==> arg1 == old(filename)) && arg2 == r [C15]
+//@   before call (*participle.Parser[G]).parse#1: assert arg1 == lex && arg2 == options [C15]
+
+// Parser.Lex returns exactly the tokens of the parser's own (mapped) definition on (filename, r).
+//@ func (*Parser[G]).Lex [C15]
+//@   requires @assumed p.lex != nil
+//@   before call Definition.Lex#1: assert arg1 == filename && arg2 == r [C15]
+//@   before call lexer.ConsumeAll#1: assert arg0 == lex [C15]
